@@ -198,7 +198,7 @@ class TvdStructure(VectorStructure):
 
 class DiffConstField(AxisOb):
     name = 'diffusionTerm/const_field'
-    props = ('C06',)
+    props = ('C06', 'C07')
 
     def setup(self, w):
         M, ps = parts(builder(dif, 'diffusionTerm', w.grid)(w.facevar('D')))
@@ -226,7 +226,7 @@ class ConvConstField(AxisOb):
 
 class UpwindConstField(AxisOb):
     name = 'convectionUpwindTerm/const_field'
-    props = ('C06',)
+    props = ('C06', 'C07')
     with_upwind = False
 
     uu_kind = None
@@ -910,3 +910,70 @@ class CanaryCentralIsMMatrix(SignStructure):
 
     def claims(self, w, S, P, a):
         return [c for c in super().claims(w, S, P, a) if c[0].startswith('offdiag_upper')]
+
+
+# ------------------------------------------------------------------------------------------------
+#  SphericalGrid3D: consistency with the continuous operator in the centre-metric form            (C02)
+#  (1/J) d_a( (J/h_a) F_a ),  J = r^2 sin(theta), h = (1, r, r sin(theta)), with J evaluated at the cell centre for
+#  the divisor and at (face coordinate on axis a, centre coordinates otherwise) for the face weights.
+#  The library's cellvolume is a different measure (recorded finding), so this is stated with the centre measure.
+
+def _sph_center_volume(w, P):
+    m = w.mesh
+    r = w.at(m.cellcenters._x, (P[0] - 1,))
+    th = w.at(m.cellcenters._y, (P[1] - 1,))
+    d = [w.at(getattr(m.facecenters, '_' + AX[b]), (P[b],)) - w.at(getattr(m.facecenters, '_' + AX[b]), (P[b] - 1,)) for b in range(3)]
+    return r * r * w.fn('sin', th) * d[0] * d[1] * d[2]
+
+
+def _sph_face_weight(w, a, P, side):
+    m = w.mesh
+    r = w.at(m.cellcenters._x, (P[0] - 1,))
+    th = w.at(m.cellcenters._y, (P[1] - 1,))
+    d = [w.at(getattr(m.facecenters, '_' + AX[b]), (P[b],)) - w.at(getattr(m.facecenters, '_' + AX[b]), (P[b] - 1,)) for b in range(3)]
+    if a == 0:
+        rf = w.at(m.facecenters._x, (P[0] - 1 + side,))
+        return rf * rf * w.fn('sin', th) * d[1] * d[2]
+    if a == 1:
+        thf = w.at(m.facecenters._y, (P[1] - 1 + side,))
+        return r * w.fn('sin', thf) * d[0] * d[2]
+    return r * d[0] * d[1]
+
+
+def _sph_metric(w, a, P):
+    m = w.mesh
+    r = w.at(m.cellcenters._x, (P[0] - 1,))
+    if a == 1:
+        return r
+    if a == 2:
+        return r * w.fn('sin', w.at(m.cellcenters._y, (P[1] - 1,)))
+    return 1
+
+
+def _mk_sph():
+    for base in (DiffFluxForm, ConvFluxForm, UpwindFluxForm, DivFluxForm):
+        class Sph(base):
+            props = ('C02',)
+            grids = ('SphericalGrid3D',)
+
+            def claims(self, w, S, P, a):
+                lhs = _sph_center_volume(w, P) * S['T'][a](P)
+                rhs = _sph_face_weight(w, a, P, 1) * self.flux(w, S, a, P, 1) - _sph_face_weight(w, a, P, 0) * self.flux(w, S, a, P, 0)
+                if not w.symbolic:
+                    w.scale = 100.0
+                return [('centre_metric_flux_form[%s]' % AX[a], w.eq(lhs, rhs))]
+        if base is DiffFluxForm:
+            def flux(self, w, S, a, P, side):
+                lo, hi = _lohi(w, S, a, P, side)
+                cs = getattr(w.mesh.cellsize, '_' + AX[a])
+                dist = (w.at(cs, (lo[a],)) + w.at(cs, (hi[a],))) / 2
+                return self.kf(w, S, a, P, side) * (w.at(S['phi'], hi) - w.at(S['phi'], lo)) / (dist * _sph_metric(w, a, P))
+            Sph.flux = flux
+        Sph.__name__ = 'Sph' + base.__name__
+        Sph.__qualname__ = Sph.__name__
+        Sph.name = base.name.replace('flux_form', 'centre_metric_flux_form')
+        Sph.__module__ = __name__
+        globals()[Sph.__name__] = Sph
+
+
+_mk_sph()
